@@ -1,4 +1,5 @@
 import UberjobModel.Lemmas.PhysStale
+import UberjobModel.Lemmas.PhysLoop
 import UberjobModel.Props.C01
 import UberjobModel.Props.C04
 /-!
@@ -17,6 +18,17 @@ interleaving, outcome of every call (C01).
 -/
 namespace Uberjob.Phys
 open Uberjob
+
+/-- **The loop of `plan_with_value_stores` builds the closed form `physBuild`, for EVERY registry order.**
+    `planWithValueStores P` is the transcription of the code: a fold over `registry.mapping` (in insertion order) of
+    `_add_value_store`, which snapshots the CURRENT out-edges of the node, adds the store literal / read / write-or-Barrier
+    (the Barrier inheriting the CURRENT predecessors), and re-attaches the snapshot edges.  The result has exactly the
+    nodes (in order) and the edge set of the order-independent description all other theorems are about.
+    (`SrcDeps`: every edge into a source is a plain dependency — sources are created by `registry.source`.) -/
+theorem C09_loop_is_closed_form {P : Input} (hP : P.WF) (hS : P.SrcDeps) :
+    (planWithValueStores P).nodes = (physBuild P).nodes ∧
+    ∀ e, e ∈ (planWithValueStores P).edges ↔ e ∈ (physBuild P).edges :=
+  loop_same hP hS
 
 /-- **The gadget of a rebuilt stored value and the rewiring of its consumers** (graph before pruning).
     For an out-of-date registered non-source `i`: `storeLit i →[0] write i`, `orig i →[1] write i`,
@@ -254,5 +266,12 @@ example : exD.WF := by constructor <;> decide
 example : (⟨.write 1, .read 2, .dep⟩ : Edge PN) ∈ (physFinal exD).edges ∧ PN.barrier 2 ∉ (physFinal exD).nodes ∧
     (⟨.write 1, .barrier 2, .dep⟩ : Edge PN) ∈ (physBuild exD).edges := by decide
 example : exD.tail 1 = .write 1 ∧ (exD.tail 1).isLit exD = false := by decide
+example : exD.SrcDeps := by unfold Input.SrcDeps; decide
+/-- the loop, processing the source 2 BEFORE the stored call 1: `orig 1 → barrier 2` is created first and then moved to
+    `write 1 → barrier 2` when entry 1 is processed (its live out-edges include it) -/
+example : (⟨.write 1, .barrier 2, .dep⟩ : Edge PN) ∈ (planWithValueStores exD).edges ∧
+    (⟨.orig 1, .barrier 2, .dep⟩ : Edge PN) ∉ (planWithValueStores exD).edges ∧
+    (⟨.orig 1, .barrier 2, .dep⟩ : Edge PN) ∈
+      ((exD.reg.take 2).foldl (addValueStore exD) (baseGraph exD)).edges := by decide
 
 end Uberjob.Phys
